@@ -52,7 +52,7 @@ def gen(seed, n):
         for k in rng.sample(G.HARMLESS, rng.randint(0, 2)):
             k(d, rng)
         if rng.random() < 0.7:
-            rule, fn, strict_only = rng.choice(G.BREAKING)
+            rule, fn, strict_only = G.BREAKING[G.next_variant("family", len(G.BREAKING))]
             d2 = copy.deepcopy(d)
             what = fn(d2, rng)
             if what is not None:
